@@ -123,7 +123,7 @@ HUGE = ['{ usize::MAX }', '{ usize::MAX - 1 }', '{ (1usize << 63) + 1 }', '{ 1us
 HUGE_NAMES = ['max', 'max_m1', 'p63_p1', 'p63', 'p63_m1', 'p32_p1']
 # groups 5 (clone_from) and 6 (From<[Z; 2]>) move a whole `[Z; N]` by value, which CBMC 6.11 cannot encode for N >= 2^63
 # (boolbv_width invariant): they run at the capacities below 2^63 only
-ZST_PAIRS = [(h, g) for h in HUGE for g in (0, 1, 2, 3, 4)] + [(h, g) for h in HUGE[4:] for g in (5, 6)]
+ZST_PAIRS = [(h, g) for h in HUGE for g in (0, 1, 2, 3, 4, 7)] + [(h, g) for h in HUGE[4:] for g in (5, 6)]
 add('s_zst', 'zst_op', ['C19'], lambda n, g: 9, pairs=(ZST_PAIRS, []))
 add('s_zst', 'zst_cmp', ['C19'], lambda n: 9, qn=HUGE[:3], tn=HUGE[3:])
 
